@@ -642,4 +642,129 @@ theorem wtg_ok (out : List TagCall) (pf : List Char) (hint : Extra) (hp : Bool) 
   exact this.symm
 
 
+/-! ## the glue: the whole `check_plurals_tail` is the model's `analyse` -/
+
+theorem aef_none (inp : Input) (pf : List Char) (hp : Bool) (expected : List (Nat × List Char)) (hint : Extra) (tags0 : List TagCall)
+    (n : Nat) (e : Expr) (lj rj : List Char) (h : inp.correct = none) :
+    analyse inp pf hp expected hint tags0 n e lj rj = analyseFrom inp pf hp hint n e (prefixTags tags0 lj rj n expected) := by
+  unfold analyse analyseFrom afterRegistry
+  generalize window n e = W
+  generalize gapRanges n e = G
+  rw [h]
+  simp only []
+  rw [show lcOf none = none from rfl, show t4Of (unusualTagOf hp pf hint) none = [] from rfl]
+  simp only [prefixTags, List.append_nil]
+  rfl
+
+theorem aef_error (inp : Input) (pf : List Char) (hp : Bool) (expected : List (Nat × List Char)) (hint : Extra) (tags0 : List TagCall)
+    (n : Nat) (e : Expr) (lj rj : List Char) (cs : List (List Char)) (ex : Exc) (h : inp.correct = some cs) (hl : localCorrect n cs = .error ex) :
+    analyse inp pf hp expected hint tags0 n e lj rj = analyseFrom inp pf hp hint n e (prefixTags tags0 lj rj n expected) := by
+  unfold analyse analyseFrom afterRegistry
+  generalize window n e = W
+  generalize gapRanges n e = G
+  rw [h]
+  simp only [hl, Except.map]
+
+theorem aef_nil (inp : Input) (pf : List Char) (hp : Bool) (expected : List (Nat × List Char)) (hint : Extra) (tags0 : List TagCall)
+    (n : Nat) (e : Expr) (lj rj : List Char) (cs : List (List Char)) (h : inp.correct = some cs) (hl : localCorrect n cs = .ok []) :
+    analyse inp pf hp expected hint tags0 n e lj rj = analyseFrom inp pf hp hint n e (prefixTags tags0 lj rj n expected) := by
+  unfold analyse analyseFrom afterRegistry
+  generalize window n e = W
+  generalize gapRanges n e = G
+  rw [h]
+  simp only [hl, Except.map]
+  rw [show lcOf (some []) = none from rfl, show t4Of (unusualTagOf hp pf hint) (some []) = [unusualTagOf hp pf hint] from rfl]
+  simp only [prefixTags, List.append_nil]
+  rfl
+
+theorem aef_one (inp : Input) (pf : List Char) (hp : Bool) (expected : List (Nat × List Char)) (hint : Extra) (tags0 : List TagCall)
+    (n : Nat) (e : Expr) (lj rj : List Char) (cs : List (List Char)) (x : Nat × Expr) (h : inp.correct = some cs) (hl : localCorrect n cs = .ok [x]) :
+    analyse inp pf hp expected hint tags0 n e lj rj = analyseFrom inp pf hp hint n e (prefixTags tags0 lj rj n expected) := by
+  unfold analyse analyseFrom afterRegistry
+  generalize window n e = W
+  generalize gapRanges n e = G
+  rw [h]
+  simp only [hl, Except.map]
+  rw [show lcOf (some [x]) = (some x) from rfl, show t4Of (unusualTagOf hp pf hint) (some [x]) = [] from rfl]
+  simp only [prefixTags, List.append_nil]
+  rfl
+
+theorem aef_many (inp : Input) (pf : List Char) (hp : Bool) (expected : List (Nat × List Char)) (hint : Extra) (tags0 : List TagCall)
+    (n : Nat) (e : Expr) (lj rj : List Char) (cs : List (List Char)) (x y : Nat × Expr) (r : List (Nat × Expr)) (h : inp.correct = some cs) (hl : localCorrect n cs = .ok (x :: y :: r)) :
+    analyse inp pf hp expected hint tags0 n e lj rj = analyseFrom inp pf hp hint n e (prefixTags tags0 lj rj n expected) := by
+  unfold analyse analyseFrom afterRegistry
+  generalize window n e = W
+  generalize gapRanges n e = G
+  rw [h]
+  simp only [hl, Except.map]
+  rw [show lcOf (some (x :: y :: r)) = none from rfl, show t4Of (unusualTagOf hp pf hint) (some (x :: y :: r)) = [] from rfl]
+  simp only [prefixTags, List.append_nil]
+  rfl
+
+theorem analyse_eq_from (inp : Input) (pf : List Char) (hp : Bool) (expected : List (Nat × List Char)) (hint : Extra) (tags0 : List TagCall)
+    (n : Nat) (e : Expr) (lj rj : List Char) :
+    analyse inp pf hp expected hint tags0 n e lj rj = analyseFrom inp pf hp hint n e (prefixTags tags0 lj rj n expected) := by
+  cases h : inp.correct with
+  | none => exact aef_none inp pf hp expected hint tags0 n e lj rj h
+  | some cs =>
+    cases hl : localCorrect n cs with
+    | error ex => exact aef_error inp pf hp expected hint tags0 n e lj rj cs ex h hl
+    | ok l =>
+      rcases l with _ | ⟨x, _ | ⟨y, r⟩⟩
+      · exact aef_nil inp pf hp expected hint tags0 n e lj rj cs h hl
+      · exact aef_one inp pf hp expected hint tags0 n e lj rj cs x h hl
+      · exact aef_many inp pf hp expected hint tags0 n e lj rj cs x y r h hl
+
+set_option hygiene false in
+local macro "finish_wtg" : tactic => `(tactic| (
+  simp only []
+  generalize hr : ChkPlurals.check_plurals_window _ _ _ _ _ _ _ _ _ _ _ _ = r
+  rcases r with ex | ⟨c, out'⟩
+  · simp only []
+    exact (wtg_error _ pf hint hp n e lc ex hr).symm
+  · simp only []
+    exact (wtg_ok _ pf hint hp n e lc c out' hr).symm))
+
+theorem tail_eq (inp : Input) (pf : List Char) (hp : Bool) (expected : List (Nat × List Char)) (hint : Extra) (tags0 : List TagCall)
+    (n : Nat) (e : Expr) (lj rj : List Char) :
+    ChkPlurals.check_plurals_tail pluralOps tags0 none pf hint hp expected inp.correct n e lj rj =
+      (analyse inp pf hp expected hint tags0 n e lj rj).map (fun o => (o.tags, o.preimage)) := by
+  unfold ChkPlurals.check_plurals_tail
+  simp only [ite_ok]
+  generalize hs1 : "(Plural-Forms header field)".toList = s1
+  generalize hs2 : "!=".toList = s2
+  generalize hs3 : "(number of msgstr items)".toList = s3
+  split
+  · rename_i ex heq
+    exfalso
+    rcases expected with _ | ⟨⟨k, r⟩, _ | ⟨q, rest⟩⟩ <;> simp [PyKit.keys] at heq
+  · rename_i out heq
+    have hout : out = prefixTags tags0 lj rj n expected := by
+      unfold prefixTags
+      rw [hs1, hs2, hs3]
+      rcases expected with _ | ⟨⟨k, r⟩, _ | ⟨q, rest⟩⟩ <;> by_cases hlj : lj.isEmpty = true <;> by_cases hrj : rj.isEmpty = true <;>
+        simp [PyKit.keys, hlj, hrj] at heq ⊢ <;> (try (by_cases hk : n = k <;> simp [hk] at heq ⊢)) <;> simp [← heq]
+    rw [analyse_eq_from, ← hout]
+    clear heq hout hs1 hs2 hs3
+    cases h : inp.correct with
+    | none =>
+      rw [registry_none, analyseFrom_none inp pf hp hint n e out h]
+      obtain ⟨lc, hlc⟩ : ∃ lc : Option (Nat × Expr), lc = none := ⟨_, rfl⟩
+      rw [← hlc]
+      have e1 : (none : Option Nat) = lc.map (·.1) := by rw [hlc]; rfl
+      have e2 : (none : Option Expr) = lc.map (·.2) := by rw [hlc]; rfl
+      rw [e1, e2]
+      finish_wtg
+    | some cs =>
+      cases hl : localCorrect n cs with
+      | error ex =>
+        rw [registry_error out pf hint hp n cs ex hl, analyseFrom_error inp pf hp hint n e out cs ex h hl]
+        simp only [Except.map]
+      | ok l =>
+        rw [registry_ok out pf hint hp n cs l hl, analyseFrom_ok inp pf hp hint n e out cs l h hl]
+        generalize lcOf (some l) = lc
+        generalize t4Of (unusualTagOf hp pf hint) (some l) = t4
+        finish_wtg
+
+
 end I18n.CheckPlurals.GenChk
